@@ -1,11 +1,11 @@
 ---------------------------- MODULE MC_TeamCity ----------------------------
 (* Leg 1 for C20: the reporter state machine over representative names (all strings over small
-   alphabets, cfg files cannot write tuples), plus the escaping theorem over ALL byte strings up
+   alphabets INCLUDING the empty string, cfg files cannot write tuples), plus the escaping theorem over ALL byte strings up
    to EscLen over EscAlphabet (ASSUME: evaluated once, before the search). *)
 EXTENDS TeamCity
-CONSTANTS NameAlpha, NameLen, FileAlpha, FileLen, MsgAlpha, MsgLen, EscAlphabet, EscLen
-MCNames == StrUpTo(NameAlpha, NameLen) \ {<<>>}
-MCFiles == StrUpTo(FileAlpha, FileLen) \ {<<>>}
+CONSTANTS NameAlpha, NameLen, FileAlpha, FileLen, FileMin, MsgAlpha, MsgLen, EscAlphabet, EscLen
+MCNames == StrUpTo(NameAlpha, NameLen)       \* the empty name, path and message are values like any other
+MCFiles == {f \in StrUpTo(FileAlpha, FileLen) : Len(f) >= FileMin}
 MCMsgs  == StrUpTo(MsgAlpha, MsgLen)
 MCTexts == {<<116>>}
 ASSUME EscapeCorrect(EscAlphabet, EscLen)
